@@ -113,7 +113,7 @@ impl Monitor for C14 {
                     })
                     .sum();
                 self.claimed += sent;
-                if sent != whole || whole == 0 {
+                if sent != whole {
                     out.violation(P, "claim_pays_whole_units", format!("{} accrued {} e-18 but was paid {}", user, acc, sent));
                 }
                 if pre.reward_bank - post.reward_bank != sent {
@@ -139,7 +139,15 @@ impl Monitor for C14 {
                 }
                 out.distinct(&("claim", decade(sent), frac > 0, recipient.is_some(), pre.holders.values().filter(|h| h.balance > 0).count().min(12)));
             } else if whole >= 1 {
-                out.violation(P, "claim_never_fails_for_funds", format!("{} has accrued {} whole units but ClaimRewards failed: {}", user, whole, c.res.tx.as_ref().unwrap().err));
+                // "never fails for lack of funds": judged when funds are what is lacking (the recorded or the actual
+                // balance does not cover the whole units accrued) or when the contract aborted; a refusal with the
+                // funds at hand (a minimum claim, say) is a policy the statement does not speak about
+                let t = c.res.tx.as_ref().unwrap();
+                if pre.prev_reward_balance < whole || pre.reward_bank < whole || t.panicked {
+                    out.violation(P, "claim_never_fails_for_funds", format!("{} has accrued {} whole units (recorded balance {}, actual {}) but ClaimRewards failed: {}", user, whole, pre.prev_reward_balance, pre.reward_bank, t.err));
+                } else {
+                    out.count("c14.claims_refused_with_funds_available");
+                }
             } else {
                 out.count("c14.claims_rejected_below_one_unit");
             }
